@@ -36,6 +36,7 @@ def main(argv):
     ap.add_argument('--rule')
     ap.add_argument('--repo', default=os.environ.get('REPO', '/repo'))
     ap.add_argument('--verbose', action='store_true')
+    ap.add_argument('--dry', action='store_true', help='do not write evidence / replay files (used when analysing scratch copies)')
     a = ap.parse_args(argv)
     tier = os.environ.get('VERIF_TIER') or a.tier
     if tier not in ('quick', 'thorough'):
@@ -54,6 +55,13 @@ def main(argv):
         verbose = True
         print('replaying %s rule %s instance %s' % (rp['property'], rp['rule'], rp['key']))
     try:
+        if a.dry:
+            code, ctx = run_property(prop, a.repo, tier, seed, only, verbose, write=False, quiet=True)
+            new, matched = ctx.split_known()
+            for v in new:
+                print('VIOLATION property=%s replay=- rule=%s instance=%s\n  %s\n  %s' % (prop, v['rule'], v['key'], v['site'], v['msg'][:300]))
+            print('%s [dry]: %d new violation(s), %d known' % (prop, len(new), len(matched)))
+            return 1 if new else 0
         code, ctx = run_property(prop, a.repo, tier, seed, only, verbose)
         if tier == 'thorough' and not a.replay and code == 0:
             from sa import selftest
